@@ -236,7 +236,7 @@ fn stub(element: Element, digest: &str) -> Element {
                 created_tx: previous.created_tx,
                 updated_tx: previous.updated_tx,
                 origin: previous.origin,
-                governance: purge_marker(digest),
+                governance: stub_governance(&previous.governance, digest),
                 $($extra: $value,)?
                 ..Default::default()
             };
@@ -257,6 +257,28 @@ fn stub(element: Element, digest: &str) -> Element {
         Element::Evidence(row) => erase!(Evidence, EvidenceRow, row),
         Element::Activity(row) => erase!(Activity, ActivityRow, row),
     }
+}
+
+/// The Governance block of a stub: the purge marker, under the label the
+/// element carried.
+///
+/// The classification is not content — it is the Governance decision about who
+/// may learn that the element exists at all (§103), and erasing the bytes does
+/// not revisit that decision. A stub that dropped it would fall back to the
+/// Space default, so purging a secret element would show every reader of the
+/// default class that it had existed, who wrote it and when, and would put its
+/// journal entries back into their `HISTORY` — a declassification performed by
+/// the one operation that is meant to disclose least, and without the
+/// `declassify` permission lowering a label otherwise needs.
+fn stub_governance(previous: &Json, digest: &str) -> Json {
+    let mut block = purge_marker(digest);
+    if let Some(label) = previous
+        .get("classification")
+        .filter(|label| label.is_string())
+    {
+        block["classification"] = label.clone();
+    }
+    block
 }
 
 /// The Governance block a purged stub carries.
@@ -293,5 +315,22 @@ mod tests {
         assert_eq!(marker["content_digest"], "abc123");
         assert_eq!(marker["purged"], true);
         assert_eq!(marker.as_object().unwrap().len(), 2);
+    }
+
+    #[test]
+    fn a_stub_keeps_the_label_and_nothing_else_of_the_block_it_replaces() {
+        let previous = serde_json::json!({
+            "classification": "secret",
+            "authority_lineage": ["E-1"],
+            "quarantine": {"reason": "because"},
+        });
+        let block = stub_governance(&previous, "abc123");
+        assert_eq!(block["classification"], "secret");
+        assert_eq!(block["purged"], true);
+        assert_eq!(block["content_digest"], "abc123");
+        assert_eq!(block.as_object().unwrap().len(), 3);
+        // An element that stated no label leaves a stub that states none.
+        let unlabeled = stub_governance(&serde_json::json!({}), "abc123");
+        assert_eq!(unlabeled, purge_marker("abc123"));
     }
 }
